@@ -46,6 +46,18 @@ def witness_d3(theta, N, seed):
     return _witness(theta, N, seed, 3)
 
 
+def witness_d4(theta, N, seed):
+    return _witness(theta, N, seed, 4)
+
+
+def witness_d5(theta, N, seed):
+    return _witness(theta, N, seed, 5)
+
+
+def witness_d6(theta, N, seed):
+    return _witness(theta, N, seed, 6)
+
+
 def witness_huge_d1(theta, N, seed):
     return _witness(theta, N, seed, 1, "huge")
 
@@ -162,7 +174,7 @@ WITNESS = {
     ("globalrng", 1): witness_globalrng_d1, ("globalrng", 2): witness_globalrng_d2, ("globalrng", 3): witness_globalrng_d3,
     ("slow", 1): witness_slow_d1, ("slow", 2): witness_slow_d2, ("slow", 3): witness_slow_d3,
     ("mut", 1): witness_mut_d1, ("mut", 2): witness_mut_d2, ("mut", 3): witness_mut_d3,
-    ("plain", 1): witness_d1, ("plain", 2): witness_d2, ("plain", 3): witness_d3,
+    ("plain", 1): witness_d1, ("plain", 2): witness_d2, ("plain", 3): witness_d3, ("plain", 4): witness_d4, ("plain", 5): witness_d5, ("plain", 6): witness_d6,
     ("huge", 1): witness_huge_d1, ("huge", 2): witness_huge_d2, ("inf", 1): witness_inf_d1, ("f32", 1): witness_f32_d1,
 }
 
